@@ -67,9 +67,33 @@ class OutputFixPass(ir.passes.InPlacePass):
         return ir.passes.PassResult(model, modified=modified)
 
 
+def _value_names(graph_like: ir.Graph | ir.Function) -> set[str]:
+    """Names of all values defined in the graph or function and its subgraphs."""
+    names: set[str] = set()
+    for graph in (graph_like, *graph_like.subgraphs()):
+        names.update(value.name for value in graph.inputs if value.name)
+        if isinstance(graph, ir.Graph):
+            names.update(graph.initializers)
+    for node in graph_like.all_nodes():
+        names.update(output.name for output in node.outputs if output.name)
+    return names
+
+
+def _fresh_name(base: str, taken: set[str]) -> str:
+    """Return ``base``, or ``base`` with a numeric suffix, such that it is not in ``taken``."""
+    name = base
+    suffix = 1
+    while name in taken:
+        name = f"{base}_{suffix}"
+        suffix += 1
+    taken.add(name)
+    return name
+
+
 def _alias_multi_used_outputs(graph_like: ir.Graph | ir.Function) -> bool:
     """Insert Identity nodes for values that appear in the graph output list multiple times."""
     modified = False
+    taken = _value_names(graph_like)
 
     for graph in (graph_like, *graph_like.subgraphs()):
         # Count usage of each output
@@ -87,8 +111,7 @@ def _alias_multi_used_outputs(graph_like: ir.Graph | ir.Function) -> bool:
             identity_output = identity_node.outputs[0]
 
             # Copy metadata from the original output
-            # TODO: Use a better unique naming strategy if needed
-            identity_output.name = f"{output.name}_alias_{i}"
+            identity_output.name = _fresh_name(f"{output.name}_alias_{i}", taken)
             identity_output.shape = output.shape
             identity_output.type = output.type
             identity_output.metadata_props.update(output.metadata_props)
@@ -107,6 +130,7 @@ def _alias_multi_used_outputs(graph_like: ir.Graph | ir.Function) -> bool:
 def _alias_direct_outputs(graph_like: ir.Graph | ir.Function) -> bool:
     """Insert Identity nodes for graph inputs used directly as outputs."""
     modified = False
+    taken = _value_names(graph_like)
 
     for graph in (graph_like, *graph_like.subgraphs()):
         # Check each output to see if it's directly a graph input
@@ -130,8 +154,7 @@ def _alias_direct_outputs(graph_like: ir.Graph | ir.Function) -> bool:
             identity_output.doc_string = output.doc_string
 
             # Create a new name for the old output
-            # TODO: Use a better unique naming strategy if needed
-            output.name = f"{output.name}_orig"
+            output.name = _fresh_name(f"{output.name}_orig", taken)
 
             # Add the node to the graph
             graph.append(identity_node)
